@@ -145,6 +145,7 @@ static void zoo_weights(struct zoo_w *w, const char *prop)
 		w->ntimer = 6; w->nfd = 3; w->w_work = 10; w->w_io = 25; w->nloops_max = 1; w->eintr_pct = 30;
 	} else if (!strcmp(prop, "C06")) {
 		w->ntask = 6; w->nfd = 2; w->ntimer = 2; w->w_reg = 40; w->reuse_pct = 60; w->nloops_max = 1;
+		w->w_quit = 6; w->cycles_pct = 35; w->w_work = 8;
 	} else if (!strcmp(prop, "C07")) {
 		w->w_quit = 8; w->emfile_pct = 25; w->tryfail_pct = 25; w->cycles_pct = 25; w->w_unreg = 35;
 	} else if (!strcmp(prop, "C18")) {
@@ -442,10 +443,10 @@ static void gen_zoo(const char *prop, int tier)
 	}
 	/* the repeated-deadline kernel-timer optimisation: many wake-ups of loop 0 while one timer stays the
 	 * earliest (>= 5 in a row arms the timerfd), then the deadline moves earlier / later / away */
-	if ((!strcmp(prop, "C04") || !strcmp(prop, "C07") || !strcmp(prop, "C15")) && ndrv > 0 && P(30)) {
+	if ((!strcmp(prop, "C04") || !strcmp(prop, "C07") || !strcmp(prop, "C15") || !strcmp(prop, "C06")) && ndrv > 0 && P(30)) {
 		int ch = add_obj(K_CHAN, -1), f = add_obj(K_FD, 0), t1 = add_obj(K_TIMER, 0), t2 = add_obj(K_TIMER, 0), drv = nloops;
 		int64_t D = (int64_t[]){ 50000000, 400000000, 2000000000, 10000000000LL }[R(4)], s = D / (12 + R(20));
-		int k = 6 + R(5), n = k + 2 + R(8), variant = R(5), j;
+		int k = 6 + R(5), n = k + 2 + R(8), variant = !strcmp(prop, "C06") ? 5 : R(6), j;
 		if (ch >= 0 && f >= 0 && t1 >= 0 && t2 >= 0) {
 			G->obj[f].p[0] = ch; G->obj[f].p[1] = 0; G->obj[f].p[2] = 1;
 			if (P(70))
@@ -468,6 +469,19 @@ static void gen_zoo(const char *prop, int tier)
 			case 3:	/* re-armed later from its own handler */
 				add_op(CTX_CB, t1, 1, OP_REG, t1, 0, D / 3 + 1, 0);
 				break;
+			case 5: {
+				/* a task that keeps re-registering itself, and takes its time, across the expiry of the
+				 * timer the kernel timer is armed for; the timer re-arms itself and must go on firing
+				 * after the burst */
+				int tk = add_obj(K_TASK, 0);
+				if (tk >= 0) {
+					add_op(CTX_CB, f, k, OP_REG, tk, 0, 0, 0);
+					add_op(CTX_CB, tk, 0, OP_WORK, 0, D / (6 + R(10)) + 1, 0, 0);
+					add_op(CTX_CB, tk, 0, OP_REG, tk, 0, 0, 0);
+				}
+				add_op(CTX_CB, t1, 0, OP_REG, t1, 0, D / 3 + 1, 0);
+				break;
+			}
 			default:
 				add_op(CTX_CB, f, k, OP_UNREG, t1, 0, 0, 0);
 				add_op(CTX_CB, f, k, OP_REG, t1, 0, D / 2, 0);
@@ -540,6 +554,14 @@ int gen_plan(struct plan *p, const char *scenario, const char *prop, uint64_t se
 		r = 0;
 	} else
 		r = gen_ext(p, scenario, prop, tier);
+	if (r == 0) {
+		/* an application that calls iv_quit and later simply runs the loop again, with everything that is
+		 * registered left in place (drawn after everything else) */
+		int t;
+		for (t = 0; t < p->nthr; t++)
+			if (p->thr[t].kind == 'L' && P(25))
+				p->thr[t].reenter = 1 + R(2);
+	}
 	if (r == 0 && P(7)) {
 		/* an interrupted or spuriously empty read of one of the library's own wake-up descriptors
 		 * (drawn after everything else) */
